@@ -40,11 +40,12 @@ class Seg:
 
 
 class Induct:
-    def __init__(self, facts, body, dom_factory, budget=200000, crate="anything"):
+    def __init__(self, facts, body, dom_factory, budget=200000, crate="anything", exclude=()):
+        """exclude: functions that the domain does not follow (their loops are not stop points)."""
         self.facts, self.body, self.dom_factory, self.budget = facts, body, dom_factory, budget
         cg = CallGraph(facts, crate)
         self.stops = {}
-        for p in sorted(cg.reachable([body.path])):
+        for p in sorted(cg.reachable([body.path], stop=set(exclude))):
             b = facts.fn(p, crate)
             if b is None or b.promoted >= 0 or "{closure" in p:
                 continue
